@@ -119,19 +119,7 @@ def r_C01ef(root):
         inst += 1; okc = tab.get(nm) == SPEC.get(nm)
         ob("C01", "C01.e", L, "python_type", "%s -> %s" % (nm, tab.get(nm)), okc)
         if not okc: out.append(Finding("C01", "C01.e", L, "python_type", "%s: %s" % (nm, tab.get(nm)), "base type %s maps to Python type %s, documented %s" % (nm, tab.get(nm), SPEC.get(nm))))
-    # ---- C01.g use_regexp_group
-    pn = find(load(root, M), "parse_tree_to_objgraph.process_node"); fip = sem.info(pn)
-    g1 = [c for c in calls(pn, own=True) if isinstance(c.func, ast.Attribute) and c.func.attr == "group" and len(c.args) == 1 and isinstance(c.args[0], ast.Constant) and c.args[0].value == 1]
-    if not g1: raise AnalysisError("use_regexp_group: group(1) selection not found in process_node")
-    for c in g1:
-        inst += 1
-        at = [(a_.replace(" ", ""), pol) for a_, pol in fip.atoms_at(c)]
-        has_opt = any(u == "metamodel.use_regexp_group" and pol for u, pol in at)
-        static_count = any(pol and u.endswith(".groups==1") and ".regex." in u for u, pol in at)
-        okc = has_opt and static_count
-        ob("C01", "C01.g", M, "parse_tree_to_objgraph.process_node", ast.unparse(c), okc)
-        if not has_opt: out.append(Finding("C01", "C01.g", M, "parse_tree_to_objgraph.process_node", ast.unparse(c), "regex group is used as the value although use_regexp_group is not tested"))
-        elif not static_count: out.append(Finding("C01", "C01.g", M, "parse_tree_to_objgraph.process_node", ast.unparse(c), "group 1 is selected by a property of the individual match (conditions: %s); documented: iff the pattern defines exactly one group" % [u for u, p in at if p][-3:], witness="use_regexp_group=True and a regex with two groups of which only the first takes part in the match"))
+    # C01.g (use_regexp_group) is decided by evaluation: C01.k (sa/rules/cpn.py)
     return inst, out
 def r_C01i(root):
     """C01.i  attribute type over repeated assignments (visit_assignment): the type recorded by the first assignment
